@@ -1957,6 +1957,7 @@ class TensorDict(TensorDictBase):
             rep,
             batch_size=new_batch_size,
             call_on_nested=True,
+            names=self.names if self._has_names() else None,
             propagate_lock=True,
         )
 
@@ -1970,6 +1971,7 @@ class TensorDict(TensorDictBase):
             rep,
             batch_size=new_batch_size,
             call_on_nested=True,
+            names=self.names if self._has_names() else None,
             propagate_lock=True,
         )
 
